@@ -101,6 +101,8 @@ func DefaultConfig() *Config {
 			"github.com/tokenized/pkg/merchant_api",
 			"github.com/tokenized/pkg/bsor",
 			"github.com/tokenized/threads",
+			"github.com/tokenized/envelope/...",
+			"github.com/tokenized/specification/dist/golang/protocol",
 			"github.com/pkg/errors",
 			"io", "bytes", "encoding/binary", "context", "math", "strconv",
 			"unicode/utf8", "sort", "strings", "sync", "sync/atomic", "encoding/hex",
